@@ -10,7 +10,10 @@ export GOFLAGS=-mod=mod GOPROXY=off GOSUMDB=off GOTOOLCHAIN=local
 WT=/tmp/seedwt-$ID
 git -C /repo worktree remove --force $WT >/dev/null 2>&1
 git -C /repo worktree add -q --detach $WT HEAD || exit 2
-trap 'git -C /repo worktree remove --force '$WT' >/dev/null 2>&1' EXIT
+# evidence/ and replays/ must keep describing the unchanged tree: save them and put them back afterwards
+SAVE=$(mktemp -d /tmp/seedsave.XXXXXX)
+cp -a evidence replays $SAVE/
+trap 'git -C /repo worktree remove --force '$WT' >/dev/null 2>&1; rm -rf evidence replays; cp -a '$SAVE'/evidence '$SAVE'/replays .; rm -rf '$SAVE EXIT
 if ! git -C $WT apply /verif/seeded/$ID/patch.diff; then echo "PATCH DOES NOT APPLY"; exit 2; fi
 ( cd $WT && go build ./... ) || { echo "BUILD FAILS"; exit 2; }
 SUITE=$(cd $WT && go test -count=1 ./... 2>&1 | tail -1)
